@@ -1,0 +1,273 @@
+//! Verification hooks. Compiled only with `--cfg sneldb_verif`; with the flag
+//! off this module does not exist and no call site is compiled.
+//!
+//! * `step` / `step_async`: named step boundaries. A step can be armed as a
+//!   crash point (the process kills itself with SIGKILL: no destructors, no
+//!   buffered data flushed) or - async variant only - as a pause point (the
+//!   task parks until released). Every crossed step is appended to a trace.
+//! * `register_shard` / `compact_shard`: deterministic per-shard compaction
+//!   that mirrors `compactor/background.rs` without the timer and the
+//!   IO / memory pressure gates.
+//! * WAL counters for a "WAL drained" barrier.
+//! * clock overrides for the STORE timestamp and the event id generator.
+
+use std::collections::HashMap;
+use std::path::PathBuf;
+use std::sync::atomic::{AtomicBool, AtomicI64, AtomicU64, Ordering};
+use std::sync::{Arc, Mutex, RwLock as StdRwLock};
+
+use once_cell::sync::Lazy;
+
+#[derive(Default)]
+struct StepState {
+    counts: HashMap<String, u64>,
+    trace: Vec<String>,
+    trace_on: bool,
+    crash: Option<(String, u64)>,
+    pause: Option<(String, u64)>,
+    parked: Option<String>,
+}
+
+static STEPS: Lazy<Mutex<StepState>> = Lazy::new(|| Mutex::new(StepState::default()));
+static RELEASE: AtomicBool = AtomicBool::new(false);
+
+fn die() -> ! {
+    let _ = nix::sys::signal::kill(nix::unistd::Pid::this(), nix::sys::signal::Signal::SIGKILL);
+    loop {
+        std::thread::sleep(std::time::Duration::from_secs(1));
+    }
+}
+
+/// Returns true when the caller (async variant) has to park.
+fn step_inner(name: &str, may_pause: bool) -> bool {
+    let mut st = STEPS.lock().unwrap();
+    let n = {
+        let c = st.counts.entry(name.to_string()).or_insert(0);
+        *c += 1;
+        *c
+    };
+    if st.trace_on {
+        st.trace.push(name.to_string());
+    }
+    if let Some((cn, nth)) = &st.crash {
+        if cn == name && *nth == n {
+            die();
+        }
+    }
+    if may_pause {
+        if let Some((pn, nth)) = &st.pause {
+            if pn == name && *nth == n {
+                st.pause = None;
+                st.parked = Some(name.to_string());
+                RELEASE.store(false, Ordering::SeqCst);
+                return true;
+            }
+        }
+    }
+    false
+}
+
+/// Synchronous step boundary: trace + crash point.
+pub fn step(name: &str) {
+    step_inner(name, false);
+}
+
+/// Asynchronous step boundary: trace + crash point + pause point.
+pub async fn step_async(name: &str) {
+    if step_inner(name, true) {
+        while !RELEASE.load(Ordering::SeqCst) {
+            tokio::time::sleep(std::time::Duration::from_millis(1)).await;
+        }
+        STEPS.lock().unwrap().parked = None;
+    }
+}
+
+pub fn arm_crash(name: &str, nth: u64) {
+    let mut st = STEPS.lock().unwrap();
+    let base = st.counts.get(name).copied().unwrap_or(0);
+    st.crash = Some((name.to_string(), base + nth));
+}
+
+pub fn arm_pause(name: &str, nth: u64) {
+    let mut st = STEPS.lock().unwrap();
+    let base = st.counts.get(name).copied().unwrap_or(0);
+    st.pause = Some((name.to_string(), base + nth));
+}
+
+pub fn disarm() {
+    let mut st = STEPS.lock().unwrap();
+    st.crash = None;
+    st.pause = None;
+}
+
+pub fn parked() -> Option<String> {
+    STEPS.lock().unwrap().parked.clone()
+}
+
+pub fn release() {
+    RELEASE.store(true, Ordering::SeqCst);
+}
+
+pub fn trace_start() {
+    let mut st = STEPS.lock().unwrap();
+    st.trace.clear();
+    st.trace_on = true;
+}
+
+pub fn trace_take() -> Vec<String> {
+    let mut st = STEPS.lock().unwrap();
+    std::mem::take(&mut st.trace)
+}
+
+// ---------------------------------------------------------------- WAL barrier
+
+static WAL_ENQUEUED: AtomicU64 = AtomicU64::new(0);
+static WAL_WRITTEN: AtomicU64 = AtomicU64::new(0);
+
+pub fn wal_enqueued() {
+    WAL_ENQUEUED.fetch_add(1, Ordering::SeqCst);
+}
+
+pub fn wal_written() {
+    WAL_WRITTEN.fetch_add(1, Ordering::SeqCst);
+}
+
+pub fn wal_drained() -> bool {
+    WAL_WRITTEN.load(Ordering::SeqCst) >= WAL_ENQUEUED.load(Ordering::SeqCst)
+}
+
+// ---------------------------------------------------------------------- clock
+
+static CLOCK_SECS: AtomicI64 = AtomicI64::new(-1);
+static CLOCK_MILLIS: AtomicI64 = AtomicI64::new(-1);
+static CLOCK_MILLIS_SCRIPT: Lazy<Mutex<std::collections::VecDeque<u64>>> =
+    Lazy::new(|| Mutex::new(std::collections::VecDeque::new()));
+
+pub fn set_clock_secs(v: Option<u64>) {
+    CLOCK_SECS.store(v.map(|x| x as i64).unwrap_or(-1), Ordering::SeqCst);
+}
+
+pub fn clock_secs_override() -> Option<u64> {
+    let v = CLOCK_SECS.load(Ordering::SeqCst);
+    if v < 0 { None } else { Some(v as u64) }
+}
+
+pub fn set_clock_millis(v: Option<u64>) {
+    CLOCK_MILLIS.store(v.map(|x| x as i64).unwrap_or(-1), Ordering::SeqCst);
+}
+
+/// A script of millisecond readings; each read of the clock consumes one entry
+/// (the last one is repeated +1 per read so that waiting loops terminate).
+pub fn set_clock_millis_script(v: Vec<u64>) {
+    let mut s = CLOCK_MILLIS_SCRIPT.lock().unwrap();
+    s.clear();
+    s.extend(v);
+}
+
+pub fn clock_millis_override() -> Option<u64> {
+    {
+        let mut s = CLOCK_MILLIS_SCRIPT.lock().unwrap();
+        if !s.is_empty() {
+            if s.len() == 1 {
+                let v = s[0];
+                s[0] = v + 1;
+                return Some(v);
+            }
+            return s.pop_front();
+        }
+    }
+    let v = CLOCK_MILLIS.load(Ordering::SeqCst);
+    if v < 0 { None } else { Some(v as u64) }
+}
+
+// ----------------------------------------------------------------- compaction
+
+#[derive(Clone)]
+struct ShardReg {
+    dir: PathBuf,
+    segment_ids: Arc<StdRwLock<Vec<String>>>,
+    flush_lock: Arc<tokio::sync::Mutex<()>>,
+}
+
+static SHARDS: Lazy<Mutex<HashMap<u32, ShardReg>>> = Lazy::new(|| Mutex::new(HashMap::new()));
+
+pub fn register_shard(
+    id: u32,
+    dir: PathBuf,
+    segment_ids: Arc<StdRwLock<Vec<String>>>,
+    flush_lock: Arc<tokio::sync::Mutex<()>>,
+) {
+    SHARDS.lock().unwrap().insert(
+        id,
+        ShardReg {
+            dir,
+            segment_ids,
+            flush_lock,
+        },
+    );
+}
+
+pub fn live_segments(id: u32) -> Option<Vec<String>> {
+    let reg = SHARDS.lock().unwrap().get(&id).cloned()?;
+    let v = reg.segment_ids.read().unwrap().clone();
+    Some(v)
+}
+
+pub fn shard_dir(id: u32) -> Option<PathBuf> {
+    SHARDS.lock().unwrap().get(&id).map(|r| r.dir.clone())
+}
+
+/// One compaction round on one shard, exactly as the background compactor
+/// would run it when its timer fires. Returns Ok(true) if a plan existed.
+pub async fn compact_shard(id: u32) -> Result<bool, String> {
+    use crate::engine::core::compaction::{
+        handover::CompactionHandover,
+        policy::{CompactionPolicy, KWayCountPolicy},
+    };
+    use crate::engine::core::{CompactionWorker, SegmentIndex};
+    use crate::engine::schema::SchemaRegistry;
+
+    let reg = SHARDS
+        .lock()
+        .unwrap()
+        .get(&id)
+        .cloned()
+        .ok_or_else(|| format!("shard {} not registered", id))?;
+    let handover = Arc::new(CompactionHandover::new(
+        id,
+        reg.dir.clone(),
+        Arc::clone(&reg.segment_ids),
+        Arc::clone(&reg.flush_lock),
+    ));
+    let segment_index = SegmentIndex::load(&reg.dir)
+        .await
+        .map_err(|e| format!("load index: {}", e))?;
+    let policy = KWayCountPolicy::default();
+    let plans = CompactionPolicy::plan(&policy, &segment_index);
+    if plans.is_empty() {
+        return Ok(false);
+    }
+    let registry = Arc::new(tokio::sync::RwLock::new(
+        SchemaRegistry::new().map_err(|e| format!("registry: {}", e))?,
+    ));
+    let worker = CompactionWorker::new(id, reg.dir.clone(), registry, handover);
+    worker.run().await.map_err(|e| format!("compaction: {}", e))?;
+    // reclaim of drained inputs runs in a detached blocking task; wait for it
+    let t0 = std::time::Instant::now();
+    while RECLAIM_PENDING.load(Ordering::SeqCst) > 0 && t0.elapsed().as_secs() < 10 {
+        tokio::time::sleep(std::time::Duration::from_millis(2)).await;
+    }
+    Ok(true)
+}
+
+static RECLAIM_PENDING: AtomicI64 = AtomicI64::new(0);
+
+pub fn reclaim_scheduled() {
+    RECLAIM_PENDING.fetch_add(1, Ordering::SeqCst);
+}
+
+pub fn reclaim_done() {
+    RECLAIM_PENDING.fetch_sub(1, Ordering::SeqCst);
+}
+
+
